@@ -342,7 +342,7 @@ def run_check(pid: str, tier: str, seed: int) -> int:
     rc = 0
     for key, n in sorted(stats.known.items()):
         f = open_keys[key]
-        print(f'KNOWN-FINDING: property={pid} {key}: {f["what"]} (met {n}x in this run)', flush=True)
+        print(f'KNOWN-FINDING: property={pid} {key}: {f["what"][:300]} (met {n}x in this run)', flush=True)
     for f in open_keys.values():
         if f['key'] not in stats.known:
             print(f'note: open known finding {f["key"]} was not reproduced in this run', flush=True)
